@@ -79,6 +79,10 @@ unary("np.diff", np.diff, [{}, {"n": 2}, {"axis": 0}], [(4,), (2, 3), (3, 3)], d
 T("np.diff", "prepend|(4,)", lambda a, p: np.diff(a, prepend=p), {"a": I("X", (4,)), "p": I("X", (1,))})
 T("np.diff", "append|(4,)", lambda a, p: np.diff(a, append=p), {"a": I("X", (4,)), "p": I("X", (2,))})
 unary("np.ediff1d", np.ediff1d, [{}], [(4,), (2, 3)])
+T("np.ediff1d", "to_end-positional|(4,)", lambda a, e: np.ediff1d(a, e), {"a": I("X", (4,)), "e": I("X", ())})
+T("np.ediff1d", "to_end,to_begin-positional|(4,)", lambda a, e, b: np.ediff1d(a, e, b), {"a": I("X", (4,)), "e": I("X", (2,)), "b": I("X", ())})
+T("np.ediff1d", "keywords|(4,)", lambda a, e, b: np.ediff1d(a, to_begin=b, to_end=e), {"a": I("X", (4,)), "e": I("X", (2,)), "b": I("X", ())})
+T("np.ediff1d", "positional-end,keyword-begin|(4,)", lambda a, e, b: np.ediff1d(a, e, to_begin=b), {"a": I("X", (4,)), "e": I("X", ()), "b": I("X", (2,))})
 T("np.ediff1d", "to_end|(4,)", lambda a, p: np.ediff1d(a, to_end=p), {"a": I("X", (4,)), "p": I("X", (2,))})
 T("np.ediff1d", "to_begin|(4,)", lambda a, p: np.ediff1d(a, to_begin=p), {"a": I("X", (4,)), "p": I("X", (1,))})
 unary("np.gradient", np.gradient, [{}, {"axis": 0}, {"edge_order": 2}], [(4,), (3, 3)], cls="other")
